@@ -201,3 +201,41 @@ Section Glue.
     - cbn [orb] in Hn. rewrite Hn. apply IH; assumption.
   Qed.
 End Glue.
+
+(* ---- the finder as a whole ---- *)
+Section Finder.
+  Variable P : params.
+
+  (* conditions on the (generated) grammar, all decidable by computation *)
+  Definition grammar_ok (name : string) (ty : rule_ty) (impl : bool) (body : expr) : Prop :=
+    p_file P = ERule name ty impl body /\
+    emits ty (match ty with RCompound => Compound | RNonAtomic => NonAtomic | _ => NonAtomic end) false = true /\
+    wf_grammar (p_ws P) (p_comment P) (p_file P) = true /\
+    strict_ok (fun _ => false) (p_file P) = true /\
+    forallb (fun n => String.eqb n "log_macro" || String.eqb n "EOI" || String.eqb n "other_name")
+            (top_names body (inner_atomicity ty impl NonAtomic) false) = true.
+
+  Theorem entries_total name ty impl body :
+    grammar_ok name ty impl body ->
+    forall cfg code, exists es, entries P cfg code = Done es.
+  Proof.
+    intros (Hfile & Hemit & Hwf & Hstrict & Hnames) cfg code. unfold entries.
+    pose proof (parse_terminates (p_U P) (p_ws P) (p_comment P) (p_file P) Hwf code) as Hnd.
+    destruct (parse (p_U P) (p_ws P) (p_comment P) (p_file P) code) as [| |i' toks] eqn:Ep; [eauto|congruence|].
+    unfold parse in Ep.
+    pose proof (run_tokens code (fun _ => false) (p_U P) (skipf (p_U P) (p_ws P) (p_comment P))
+                  (skipf_adv (p_U P) (p_ws P) (p_comment P)) _ _ _ _ _ _ Hstrict (suffix_init code) Ep) as Htok.
+    rewrite Hfile in Ep.
+    destruct (rule_node_shape (p_U P) (skipf (p_U P) (p_ws P) (p_comment P)) name ty impl body NonAtomic false
+                _ _ _ ltac:(destruct ty; exact Hemit) Ep) as (kids & -> & Hkn).
+    cbn [node_kids].
+    cbn [forest_in] in Htok. destruct Htok as (_ & Hle & Htree & _).
+    assert (Hok : ok code (fun _ => false) (Node name (pos {| rest := code; pos := 0 |}) (pos i') kids)) by (split; assumption).
+    pose proof (ok_kids code (fun _ => false) _ Hok) as Hkids. cbn [node_kids] in Hkids.
+    apply (collect_no_panic P code (fun _ => false) cfg kids [] Hkids).
+    rewrite forallb_forall in Hnames. unfold named_in in Hkn. rewrite Forall_forall in Hkn |- *.
+    intros f Hf. specialize (Hnames _ (Hkn f Hf)). unfold is_rule.
+    destruct (String.eqb (node_rule f) "log_macro"), (String.eqb (node_rule f) "EOI"),
+             (String.eqb (node_rule f) "other_name"); cbn in *; congruence.
+  Qed.
+End Finder.
